@@ -253,6 +253,9 @@ func (sp *spec) cases(thorough bool) []valCase {
 				if !sp.rootOK(v) {
 					continue
 				}
+				if n >= 3 && hasSoloFloat(v) {
+					continue
+				}
 				vc := valCase{v: v}
 				switch {
 				case n <= 2:
